@@ -150,6 +150,26 @@ impl Seg {
             self.wal = None;
             return Some(self.open());
         }
+        match t[0] {
+            // I/O event seam (cfg walrus_verif): crash points, fault injection, traces
+            "EVENTS" => return Some(format!("n:{}", walrus_rust::wal::verif::events())),
+            "CRASHAT" => {
+                walrus_rust::wal::verif::arm_exit_in(t[1].parse().unwrap_or(0));
+                return Some("ok".into());
+            }
+            "FAILAT" => {
+                walrus_rust::wal::verif::arm_fail_in(t[1].parse().unwrap_or(0));
+                return Some("ok".into());
+            }
+            "TRACE" => {
+                walrus_rust::wal::verif::start_trace();
+                return Some("ok".into());
+            }
+            "TRACEEND" => {
+                return Some(format!("trace:{}", walrus_rust::wal::verif::take_trace().join("|")));
+            }
+            _ => {}
+        }
         if t[0] == "SLEEP" {
             std::thread::sleep(std::time::Duration::from_millis(t[1].parse().unwrap_or(1)));
             return Some("ok".into());
@@ -256,6 +276,7 @@ pub fn seg_main(args: &[String]) {
         std::panic::set_hook(Box::new(|_| {}));
     }
     let data_dir = PathBuf::from(&args[0]);
+    walrus_rust::wal::verif::count_this_thread();
     if args[2] == "mmap" {
         walrus_rust::disable_fd_backend();
     } else {
